@@ -306,6 +306,11 @@ def m_list(R, args, kw, node):
         s = R.as_seq(v)
         if as_tuple:
             return V(T.Seq(s.t.elem, py="tuple"), s.z)
+        if v.t.kind == "list" and R.cell(v).ty.counted:
+            lt = T.List(s.t.elem, counted=True)
+            r = R.alloc(lt, V(lt.content(), s.z))
+            R.heap[r.z].ghost = {"cnt": cnt_of(R, v)}
+            return r
         return R.list_from_seq(s)
     if v.t.kind == "tuple":
         items = [V(t, v.t.get(v.z, i)) for i, t in enumerate(v.t.items)]
@@ -329,6 +334,76 @@ def m_list(R, args, kw, node):
         R.assume(z3.ForAll([k], z3.Implies(z3.And(k >= 0, k < it.n), res[k] == e.z)))
         return R.list_from_seq(V(st, res))
     raise Unsupported("list(%s)" % v.t)
+
+
+def _int_add_decl():
+    a, b = z3.Ints("a b")
+    return (a + b).decl()
+
+
+@builtin("collections.deque", "deque")
+def m_deque(R, args, kw, node):
+    hint = R.ctx.type_hint(node)
+    counted = True if hint is None else hint.counted
+    if not args:
+        if hint is None:
+            raise Unsupported("deque() without declared local type")
+        r = R.new_list(hint.elem, [], py="deque", counted=hint.counted)
+        if hint.counted:
+            R.heap[r.z].ghost = {"cnt": z3.K(hint.elem.sort(), z3.IntVal(0))}
+        return r
+    v = args[0]
+    if v.is_const and isinstance(v.z, tuple) and v.z and v.z[0] == "genexp":
+        _, gnode, gframe = v.z
+        if len(gnode.generators) != 1:
+            raise Unsupported("nested generator")
+        g = gnode.generators[0]
+        if not (isinstance(gnode.elt, ast.Name) and isinstance(g.target, ast.Name) and gnode.elt.id == g.target.id):
+            raise Unsupported("deque(genexp) that is not a filter")
+        src = R.ev(g.iter, gframe)
+        if src.t.kind != "list":
+            raise Unsupported("filter over %s" % src.t)
+        sc = R.content(src)
+        et = sc.t.elem
+        x = z3.Const(fresh_name("x"), et.sort())
+        from .interp import Frame
+
+        f2 = Frame({}, parent=gframe)
+        R.bind(g.target, V(et, x), f2)
+        saved = R.pure
+        R.pure = True
+        try:
+            cond = z3.And([R.truthy(R.ev(c, f2)) for c in g.ifs]) if g.ifs else z3.BoolVal(True)
+        finally:
+            R.pure = saved
+        lt = T.List(et, counted=True, py="deque")
+        res = z3.Const(fresh_name("filtered"), lt.content().sort())
+        r = R.alloc(lt, V(lt.content(), res))
+        cnt = z3.Const(fresh_name("filtered.cnt"), z3.ArraySort(et.sort(), z3.IntSort()))
+        R.heap[r.z].ghost = {"cnt": cnt}
+        R.ctx.assume_cnt_wf(R, V(lt.content(), res), cnt)
+        if R.cell(src).ty.counted:
+            scnt = cnt_of(R, src)
+            R.assume(z3.ForAll([x], z3.Select(cnt, x) == z3.If(cond, z3.Select(scnt, x), z3.IntVal(0))))
+        else:
+            R.assume(z3.ForAll([x], (z3.Select(cnt, x) >= 1) == z3.And(cond, z3.Contains(sc.z, z3.Unit(x)))))
+        R.assume(z3.Length(res) <= z3.Length(sc.z))
+        # order is inherited from the source: for surviving elements the relative order is that of
+        # the source (stated through an increasing index map)
+        idx = z3.Function(fresh_name("fidx"), z3.IntSort(), z3.IntSort())
+        i, j = z3.Int(fresh_name("i")), z3.Int(fresh_name("j"))
+        n = z3.Length(res)
+        R.assume(z3.ForAll([i], z3.Implies(z3.And(0 <= i, i < n), z3.And(0 <= idx(i), idx(i) < z3.Length(sc.z), res[i] == sc.z[idx(i)]))))
+        R.assume(z3.ForAll([i, j], z3.Implies(z3.And(0 <= i, i < j, j < n), idx(i) < idx(j))))
+        return r
+    if v.t.kind == "list":
+        c = R.content(v)
+        lt = T.List(c.t.elem, counted=R.cell(v).ty.counted, py="deque")
+        r = R.alloc(lt, V(lt.content(), c.z))
+        if lt.counted:
+            R.heap[r.z].ghost = {"cnt": cnt_of(R, v)}
+        return r
+    raise Unsupported("deque(%s)" % v.t)
 
 
 @builtin("set", "frozenset")
@@ -368,7 +443,7 @@ def new_dict(R, dt):
     has = z3.K(dt.k.sort(), z3.BoolVal(False))
     val = z3.Const(fresh_name("dv"), z3.ArraySort(dt.k.sort(), dt.v.sort()))
     r = R.alloc(dt, V(mt, mt.mk(has, val)))
-    R.ghost[("cell", r.z)] = {"size": z3.IntVal(0)}
+    R.heap[r.z].ghost = {"size": z3.IntVal(0)}
     return r
 
 
@@ -405,11 +480,11 @@ def _fix_ref_type(R, lst):
 
 
 def cnt_of(R, lst):
-    return R.ghost[("cell", lst.z)]["cnt"]
+    return R.cell_ghost(lst.z)["cnt"]
 
 
 def set_cnt(R, lst, cnt):
-    R.ghost[("cell", lst.z)] = dict(R.ghost[("cell", lst.z)], cnt=cnt)
+    R.heap[lst.z].ghost = dict(R.cell_ghost(lst.z), cnt=cnt)
 
 
 @method("list", "append")
@@ -447,6 +522,12 @@ def l_extend(R, recv, args, kw, node):
             l_append(R, recv, [V(t, o.t.get(o.z, i))], {}, node)
         return mk_none()
     if cell.ty.counted:
+        if o.t.kind == "list" and R.cell(o).ty.counted and o.t.elem == cell.ty.elem:
+            c = R.content(recv)
+            cnt = cnt_of(R, recv)
+            R.set_content(recv, V(c.t, z3.Concat(c.z, R.content(o).z)))
+            set_cnt(R, recv, z3.Map(_int_add_decl(), cnt, cnt_of(R, o)))
+            return mk_none()
         raise Unsupported("extend on counted list")
     if o.t.kind == "str":
         raise Unsupported("list.extend(str)")
@@ -575,6 +656,38 @@ def l_sort(R, recv, args, kw, node):
     return mk_none()
 
 
+@method("list", "rotate")
+def l_rotate(R, recv, args, kw, node):
+    n = R.to_int(args[0]) if args else z3.IntVal(1)
+    c = R.content(recv)
+    ln = z3.Length(c.z)
+    # deque.rotate(n): the last n (mod len) elements move to the front
+    k = z3.If(ln == 0, z3.IntVal(0), (-n) % ln)  # z3 mod is non-negative for positive divisor
+    k = R.resolve(k)
+    R.set_content(recv, V(c.t, z3.Concat(z3.SubSeq(c.z, k, ln - k), z3.SubSeq(c.z, 0, k))))
+    return mk_none()
+
+
+@method(("drec", "itemref", "rec"), "get")
+def rec_get(R, recv, args, kw, node):
+    from . import records
+
+    name = records._lit(R, args[0])
+    fields, optional = records._fields(recv)
+    dflt = args[1] if len(args) > 1 else mk_none()
+    if name not in fields:
+        return dflt
+    rec = records.as_rec(R, recv, R.old_heap)
+    val = V(rec.t.fields[name], rec.t.get(rec.z, name))
+    if name not in optional:
+        return val
+    has = rec.t.get(rec.z, "has_" + name)
+    if dflt.t == val.t:
+        return V(val.t, z3.If(has, val.z, dflt.z))
+    u = T.Union(dflt.t, val.t)
+    return V(u, z3.If(has, R.coerce(val, u).z, R.coerce(dflt, u).z))
+
+
 @method("list", "copy")
 def l_copy(R, recv, args, kw, node):
     r = R.list_from_seq(R.content(recv), py=recv.t.py)
@@ -632,14 +745,14 @@ def dict_setitem(R, d, key, val):
     m, has, vals = _dict_parts(R, d)
     k = R.coerce(R.data(key), m.t.k)
     v = R.coerce(R.data(val), m.t.v)
-    g = R.ghost.get(("cell", d.z))
+    g = R.cell_ghost(d.z)
     if g is not None and "size" in g:
         g = dict(g)
         g["size"] = zsimp(z3.If(z3.Select(has, k.z), g["size"], g["size"] + 1))
         if "keys" in g:
             ks = g["keys"]
             g["keys"] = V(ks.t, z3.If(z3.Select(has, k.z), ks.z, z3.Concat(ks.z, z3.Unit(k.z))))
-        R.ghost[("cell", d.z)] = g
+        R.heap[d.z].ghost = g
     R.set_content(d, V(m.t, m.t.mk(z3.Store(has, k.z, z3.BoolVal(True)), z3.Store(vals, k.z, v.z))))
 
 
@@ -647,13 +760,13 @@ def dict_delitem(R, d, key, label):
     m, has, vals = _dict_parts(R, d)
     k = R.coerce(R.data(key), m.t.k)
     R.fail_if(z3.Not(z3.Select(has, k.z)), "KeyError", label)
-    g = R.ghost.get(("cell", d.z))
+    g = R.cell_ghost(d.z)
     if g is not None and "size" in g:
         g = dict(g)
         g["size"] = g["size"] - 1
         if "keys" in g:
             raise Unsupported("del on key-ordered dict")
-        R.ghost[("cell", d.z)] = g
+        R.heap[d.z].ghost = g
     R.set_content(d, V(m.t, m.t.mk(z3.Store(has, k.z, z3.BoolVal(False)), vals)))
 
 
